@@ -293,7 +293,8 @@ func (c BCase) text() string {
 	return s
 }
 
-var consumers = []string{"{**res}", "%{**res}", "[*res]", "{|a: 2, b: 3| [a, b]}(**res)", "{|a, b| [a, b]}(*res)", "res.S", "res.repr", "res == res", "\"#{res}\"", "res@{|x| x}", "res.keys", "res.A", "res.B", "res.bear", "[res, res].sort",
+var consumers = []string{"{^res: 1}", "%{^res: 1}", "{^res: res, a: 2}", "res.^res", "1.try.^res", "[1.try]@^res", "{_literalProxy: m{|f| f}}.^res", "res.try.^res",
+	"{**res}", "%{**res}", "[*res]", "{|a: 2, b: 3| [a, b]}(**res)", "{|a, b| [a, b]}(*res)", "res.S", "res.repr", "res == res", "\"#{res}\"", "res@{|x| x}", "res.keys", "res.A", "res.B", "res.bear", "[res, res].sort",
 	"res[0]", "res.try.val", "{res: 1}", "%{res: 1}[res]", "res.O", "res.M", "res + res", "!res", "-res", "res.len", "res.next", "res.new", "res.call(res)", "(res:res).A", "res._iter.next", "res.items", "JSON.enc(res)"}
 
 var chainTokens = map[string][2]string{".": {"", "."}, "@": {"", "@"}, "$": {"", "$"}, "&.": {"&", "."}, "~.": {"~", "."}, "=.": {"=", "."}, "&@": {"&", "@"}, "~@": {"~", "@"}, "=@": {"=", "@"}, "&$": {"&", "$"}, "~$": {"~", "$"}, "=$": {"=", "$"}}
